@@ -527,6 +527,14 @@ func (in *inst) Apply(i int) {
 // closure: all links up, then rounds of "every broker gossips its full state; everything queued
 // is delivered (relays included)" until a whole round teaches nobody anything.
 func (in *inst) closure() {
+	// every reachable peer is kept alive by the periodic update() of the real broker
+	for i, n := range in.nodes {
+		for j, o := range in.nodes {
+			if i != j {
+				n.env.Svc.VerifCluster().VerifTouch(o.name)
+			}
+		}
+	}
 	for _, l := range in.links {
 		if !l.up {
 			l.up = true
